@@ -27,7 +27,7 @@ import (
 // is in sync, and no reference to an undefined symbol.
 
 // operand kinds of the sweep
-var shapeKinds = []string{"r8", "r16", "r32", "sreg", "creg", "imm", "immbig", "immneg", "mem", "m8", "m16", "m32", "abs", "label", "undef", "str", "far", "dollar"}
+var shapeKinds = []string{"r8", "r16", "r32", "sreg", "creg", "imm", "immbig", "immneg", "mem", "m8", "m16", "m32", "abs", "label", "undef", "str", "far", "dollar", "fwdequ"}
 
 type ShapeOp struct {
 	Kind string      `json:"k"`
@@ -74,6 +74,9 @@ func shapeOperand(kind string, variant int) sem.Operand {
 		return sem.L("qdef")
 	case "undef":
 		return sem.L(pick([]string{"qundefined", "_nosuch"}))
+	case "fwdequ":
+		// a name that is defined only later, and only by an EQU whose value is label-relative
+		return sem.L("qfwdequ")
 	case "str":
 		return sem.Str(pick([]string{"ab", "x", "hello, world"}))
 	case "far":
@@ -113,6 +116,12 @@ func (c *ShapeCase) source(withStmt bool) string {
 	// the trailing forward branch makes the statement under test be followed by a first reference
 	// to a not yet defined label (pass 1 keeps state about such references)
 	fmt.Fprintf(&sb, "qafter:\n\t%s\n\tDD qafter\n\tJE qfwd\n\tNOP\nqfwd:\n\tHLT\n", markerText(3))
+	for _, o := range c.Ops {
+		if o.Kind == "fwdequ" && withStmt {
+			sb.WriteString("qfwdequ\tEQU\tqdef+1\n")
+			break
+		}
+	}
 	return sb.String()
 }
 
@@ -205,6 +214,8 @@ func checkC07(c ShapeCase) Verdict {
 				val = o.Op.Imm
 			case "label":
 				val = defAddr
+			case "fwdequ":
+				val = defAddr + 1
 			case "dollar":
 				val = here
 			case "str":
@@ -235,6 +246,8 @@ func checkC07(c ShapeCase) Verdict {
 			return o.Op.Imm, true
 		case "label":
 			return defAddr, true
+		case "fwdequ":
+			return defAddr + 1, true
 		case "dollar":
 			return here, true
 		}
@@ -296,6 +309,8 @@ func checkC07(c ShapeCase) Verdict {
 		switch o.Kind {
 		case "label":
 			stx.Ops = append(stx.Ops, sem.IT(defAddr, "qdef"))
+		case "fwdequ":
+			stx.Ops = append(stx.Ops, sem.IT(defAddr+1, "qfwdequ"))
 		case "dollar":
 			stx.Ops = append(stx.Ops, sem.IT(here, "$"))
 		case "str":
@@ -317,7 +332,7 @@ func checkC07(c ShapeCase) Verdict {
 		k := c.Ops[0].Kind
 		if !ok {
 			// an indirect branch through a register or memory operand is a legitimate encoding of "JMP r/m"
-			if k == "imm" || k == "immbig" || k == "immneg" || k == "label" || k == "dollar" {
+			if k == "imm" || k == "immbig" || k == "immneg" || k == "label" || k == "dollar" || k == "fwdequ" {
 				return fail("form", "its bytes decode as %q, not as a relative branch", x86asm.IntelSyntax(inst, 0, nil))
 			}
 			stx.Ops = []sem.Operand{c.Ops[0].Op}
@@ -333,6 +348,8 @@ func checkC07(c ShapeCase) Verdict {
 			want = c.Ops[0].Op.Imm
 		case "label":
 			want = defAddr
+		case "fwdequ":
+			want = defAddr + 1
 		case "dollar":
 			want = here
 		default:
